@@ -27,6 +27,9 @@ func (p *Prog) UsesOf(pred func(*ssa.Function) bool) map[*ssa.Function][]Use {
 				var callee *ssa.Function
 				if c, ok := in.(ssa.CallInstruction); ok {
 					callee = c.Common().StaticCallee()
+					if callee == nil {
+						callee = devirt(c.Common()) // module interface with a single implementer
+					}
 					if callee != nil && pred(resolveBound(callee)) {
 						kind := "call"
 						switch in.(type) {
